@@ -8,6 +8,7 @@ import RTA.Lemmas.ExecRunMeets
 import RTA.Lemmas.ExecEndToEnd
 import RTA.Lemmas.ExecChainEndToEnd
 import RTA.Lemmas.ExecChainExample
+import RTA.Lemmas.ExecEndToEndExample2
 import RTA.Lemmas.ExecEndToEndX
 import RTA.Lemmas.ExecChainEndToEndX
 import RTA.Spec.Ros2Exec
@@ -387,6 +388,18 @@ theorem polling_point_safe_end_to_end (cbs : List Exec.Cb) (sigma : ℕ → Bool
     (n : ℕ) :
     ∀ o ∈ Exec.run cbs (fun _ => none) ((List.range n).map sigma) rels, o.1 = i → o.2.2 ≤ o.2.1 + R :=
   Exec.pollingPoint_exec_sound cbs sigma rels H i hi hidx hfin hcb sup hs hsbf arrs hlen hwf hrel limit R hR n
+
+/-- non-vacuity of `timer_safe_end_to_end`: for the timer of the example run (no higher-priority
+timer, blocking bound 2) `rta_timer` returns `Ok(3)`, every hypothesis holds, and every completion
+of the timer that `Exec.run` reports is within 3 of its release -/
+theorem timer_safe_end_to_end_nonvacuous :
+    rosTimer .dedicated (.rbf (Exec.exArrs.getD 0 default) (.scalar (Exec.exCbs.getD 0 default).cost))
+      (.agg (((List.range Exec.exCbs.length).filter fun k =>
+          (Exec.exCbs.getD k default).isTimer && decide ((Exec.exCbs.getD k default).prio < (Exec.exCbs.getD 0 default).prio)).map
+        fun k => .rbf (Exec.exArrs.getD k default) (.scalar (Exec.exCbs.getD k default).cost))) 2 100 = .ok 3 ∧
+    ∀ o ∈ Exec.run Exec.exCbs (fun _ => none) ((List.range 60).map Exec.exSigmaAll) Exec.exRels,
+      o.1 = 0 → o.2.2 ≤ o.2.1 + 3 :=
+  ⟨Exec.timer_example_bound, Exec.timer_example_bounded⟩
 
 /-- **C04, processing chain, end to end**: every hypothesis is on the INPUTS of the run (callback
 table, linear chain `ch = [c₀, …, c_k]` of polled callbacks of which only `c₀` is released
